@@ -49,6 +49,8 @@ ALLOW = [
     (r"^can not delete variable '.*' referenced in nested scope$", "deleting a variable used by a nested scope (property text; tests/errors/e_del.pyx)"),
     (r"^Deletion of (global )?C names not supported|^Cannot assign to or delete this|^Deletion of non-Python", "docs: del of non-Python objects"),
     (r"^'?yield'? (inside|not supported|outside)|^'yield from' ", "docs/limitations: yield in unsupported places"),
+    (r"^Mixed use of tabs and spaces$", "tested rejection (tests/errors/se_mixtabspace.pyx, se_badindent.pyx): Cython refuses any mixture of tabs "
+     "and spaces in indentation, CPython only the ambiguous ones"),
     (r"directive must be set to|^Expected \"=\" in option|^Unknown option|directive cannot be set from a string|^Invalid directive|compiler directive is not allowed in",
      "a '# cython: ...' header comment is Cython syntax (docs: compiler directives); a mutant that damages it is rejected by design"),
 ]
@@ -918,6 +920,16 @@ def _ast_families(src, tree):
             f.add("bitop_on_float_literal")
         if isinstance(n, ast.AugAssign) and isinstance(n.op, (ast.LShift, ast.RShift, ast.BitOr, ast.BitAnd, ast.BitXor)) and _is_num(n.value, (float, complex)):
             f.add("bitop_on_float_literal")
+        if isinstance(n, (ast.For, ast.AsyncFor)) and enclosing(n, _FUNCS) is None and isinstance(n.iter, (ast.Tuple, ast.List)) and \
+                len(n.iter.elts) == 1 and (isinstance(n.iter.elts[0], ast.UnaryOp) and isinstance(n.iter.elts[0].op, ast.Not) or
+                                           isinstance(n.iter.elts[0], ast.Compare) and all(isinstance(o, (ast.Is, ast.IsNot)) for o in n.iter.elts[0].ops)):
+            f.add("module_level_for_over_single_c_bool_display")
+        if isinstance(n, (ast.UnaryOp, ast.BinOp, ast.Compare)):
+            opnds = [n.operand] if isinstance(n, ast.UnaryOp) else [n.left, n.right] if isinstance(n, ast.BinOp) else [n.left] + n.comparators
+            if any(isinstance(x, ast.Attribute) and isinstance(x.value, (ast.Constant, ast.List, ast.Dict, ast.Set, ast.Tuple, ast.JoinedStr))
+                   and not (isinstance(x.value, ast.Constant) and isinstance(x.value.value, (int, float, complex, type(None), type(Ellipsis))))
+                   for x in opnds) and not (isinstance(n, ast.UnaryOp) and isinstance(n.op, ast.Not)):
+                f.add("arith_on_builtin_method_of_literal")
         if isinstance(n, ast.Call) and _is_num(n.func):
             f.add("call_of_numeric_literal")
         if isinstance(n, ast.Call) and isinstance(n.func, ast.Name) and n.func.id in _BUILTIN_NAMES:
@@ -1078,6 +1090,7 @@ FAMILY_RULES = [
     ("closure_in_with_target", "positioned", r"^'[^']*' redeclared|^Previous declaration is here", "closure_in_with_target"),
     ("flat_chain_over_1000_terms_recursion_error", "crash", r"RecursionError", "flat_chain_over_1000_terms"),
     ("local_call_after_class_body_that_raises", "crash", r"AttributeError@Optimize\.py:get_constant_value_node.*cf_is_null", "local_call_after_class_body_that_raises"),
+    ("arith_on_builtin_method_of_literal", "crash", r"AttributeError@PyrexTypes\.py:widest_numeric_type.*'CFuncType' object has no attribute 'rank'", "arith_on_builtin_method_of_literal"),
     ("yield_in_function_decorator", "crash", r"AttributeError@ExprNodes\.py:generate_yield_code", "yield_in_function_decorator"),
     # triaged fuzz findings: generated C rejected by gcc
     ("except_star_outside_plain_function", "c_error", r"__pyx_skip_add_traceback.? undeclared", "except_star_outside_plain_function"),
@@ -1086,12 +1099,13 @@ FAMILY_RULES = [
     ("slice_bound_type_name_or_ellipsis", "c_error", r"lvalue required as unary .&. operand", "slice_bound_type_name_or_ellipsis"),
     ("slice_bound_tuple_literal", "c_error", r"incompatible type for argument . of .__Pyx_PyObject_(Get|Set|Del)Slice", "slice_bound_tuple_literal"),
     ("float_call_with_keyword_argument", "c_error", r"incompatible types when assigning to type .double. from type .PyObject", "float_call_with_keyword_argument"),
+    ("module_level_for_over_single_c_bool_display", "c_error", r"assignment of read-only location", "module_level_for_over_single_c_bool_display"),
     ("with_context_c_float_value", "c_error", r"cannot convert to a pointer type", "with_context_c_float_value"),
     ("bool_operand_numeric_tuple_literal", "c_error", r"unknown type name .__pyx_ctuple_", "bool_operand_numeric_tuple_literal"),
     ("genexpr_over_attribute_of_builtin_value", "c_error", r"__pyx_genexpr_arg_\d+.? declared as a function", "genexpr_over_attribute_of_builtin_value"),
     # triaged fuzz findings: valid Python rejected
     ("nested_fstring_with_doubled_braces", "positioned",
-     r"single '}' is not allowed|Unexpected characters after f-string expression|empty expression not allowed in f-string|Unexpected token None:'' in string literal",
+     r"single '}' is not allowed|Unexpected characters after f-string expression|empty expression not allowed in f-string|Unexpected token None:'' in string literal|^Expected '}', found",
      "nested_fstring_with_doubled_braces"),
     ("await_in_nested_def_header", "positioned", r"^'await' not (supported here|allowed in generators)", "await_in_nested_def_header"),
     ("star_in_subscript", "positioned", r"^starred expression is not allowed here", "star_in_subscript"),
@@ -1105,6 +1119,7 @@ FAMILY_RULES = [
     ("static_operand_type_error_on_literal_operands", "positioned", r"^complex types are unordered", "complex_literal_ordering"),
     ("builtin_call_wrong_arg_count", "positioned", r"^\w+\((x|\.\.\.)\) called with wrong number of args|^Call with wrong number of arguments \(expected", "builtin_call"),
     ("non_ascii_char_literal_compared_with_int_literal", "positioned", r"^Only single-character string literals can be coerced into ints", "non_ascii_char_literal_compared_with_int_literal"),
+    ("arith_on_builtin_method_of_literal", "positioned", r"^Invalid (operand )?types? for '[^']+' \(.*\(.*object", "arith_on_builtin_method_of_literal"),
     ("call_of_numeric_literal", "positioned", r"^Calling non-function type '(long|double|double complex)'", "call_of_numeric_literal"),
     ("slice_bound_float_literal", "positioned", r"^Cannot assign type '(double|double complex)' to 'Py_ssize_t'", "slice_bound_float_literal"),
     ("star_unpack_of_numeric_literal", "positioned", r"^starred expression is not allowed here", "star_unpack_of_numeric_literal"),
@@ -1297,6 +1312,9 @@ FAMILY_PROBES = [
     ("builtin_arity_float", ".py", "v = 1\nx = float(v, 2)\n", "builtin_call_wrong_arg_count"),
     ("float_keyword", ".py", "v = 1\nx = float(x=v)\n", "float_call_with_keyword_argument"),
     ("char_vs_int", ".py", "x = '\\u00e9' <= 10\n", "non_ascii_char_literal_compared_with_int_literal"),
+    ("for_c_bool_display", ".py", "for a in (not set,):\n    pass\n", "module_level_for_over_single_c_bool_display"),
+    ("unary_plus_method", ".py", "x = +b'a'.join\n", "arith_on_builtin_method_of_literal"),
+    ("cmp_method", ".py", "x = 'a'.join < 1\n", "arith_on_builtin_method_of_literal"),
     ("yield_decorator", ".py", "def g(d):\n    @d((yield))\n    def f(): pass\n", "yield_in_function_decorator"),
     ("async_for_literal", ".py", "async def f():\n    return [i async for i in 1.5]\n", "async_for_over_numeric_literal"),
 ]
